@@ -8,6 +8,7 @@ import Driver.C10
 import Driver.C11
 import Driver.C18
 import Driver.C16
+import Driver.Groups
 import IGVerif.Gen.Facts
 open Drv Lean
 
@@ -71,6 +72,9 @@ def main (args : List String) : IO UInt32 := do
       let cs ← readCases casesPath
       let os ← readObs obsPath
       let r := judgeAll cs os f
+      let r := match groupJudgeFor prop with
+        | some g => { r with violations := r.violations ++ g cs os }
+        | none => r
       IO.FS.writeFile reportPath r.toJson.compress
       IO.println s!"evaluations={r.evaluations} disagreements={r.disagreements.size} violations={r.violations.size} crashes={r.crashes.size}"
       return 0
